@@ -395,6 +395,71 @@ func c28ArithProgram(r *Rand, ord int) string {
 	return sb.String()
 }
 
+// (1d) nameref states × every assignment / expansion form.  States: cycles of length 1..3, self
+// references, chains (short, and 99..150 long), dangling references, references to scalars, indexed
+// and associative arrays, readonly and integer variables, to array elements and to invalid names.
+// Forms: every way the interpreter writes or reads a variable by name.
+func c28NamerefSeq(r *Rand) string {
+	var sb strings.Builder
+	v := "a"
+	switch r.Intn(14) {
+	case 0:
+		sb.WriteString("declare -n a=a\n")
+	case 1:
+		sb.WriteString("declare -n a=b b=a\n")
+	case 2:
+		sb.WriteString("declare -n a=b b=c c=a\n")
+	case 3:
+		sb.WriteString("declare -n a=b; declare -n b=c; declare -n c=b\n")
+	case 4:
+		sb.WriteString("declare -n a=nosuch\n")
+	case 5:
+		sb.WriteString("t=scalar; declare -n a=b b=t\n")
+	case 6:
+		sb.WriteString("t=(1 2 3); declare -n a=t\n")
+	case 7:
+		sb.WriteString("declare -A t=([k]=v); declare -n a=b b=t\n")
+	case 8:
+		sb.WriteString("readonly t=5; declare -n a=t\n")
+	case 9:
+		sb.WriteString("declare -i t=5; declare -n a=t\n")
+	case 10:
+		sb.WriteString("t=(1 2 3); declare -n a='t[1]'\n")
+	case 11:
+		k := []int{98, 99, 100, 101, 150}[r.Intn(5)]
+		sb.WriteString("declare -n a=n0\n")
+		fmt.Fprintf(&sb, "for ((i=0; i<%d; i++)); do declare -n n$i=n$((i+1)); done\n", k)
+		sb.WriteString(r.Pick([]string{"", fmt.Sprintf("n%d=(1 2)\n", k), fmt.Sprintf("declare -n n%d=n0\n", k)}))
+	case 12:
+		sb.WriteString("f() { local -n r=$1; " + r.Pick([]string{"r+=(1 2)", "r=(1)", "r[2]=x", "r=5", "echo \"${r[@]}\" ${!r}", "unset r", "read -a r <<<'p q'", "local -n s=r; s+=(3)"}) + "; }\ndeclare -n p=q q=p\nf " + r.Pick([]string{"p", "q", "r", "nosuch", "f", "''", "1x"}) + "\n")
+		v = "p"
+	default:
+		sb.WriteString("declare -n a; declare -n b=a; a=b\n")
+	}
+	forms := []string{
+		"V+=(x y)", "V+=([3]=x)", "V=(x y)", "V=()", "V[1]=v", "V[1]+=v", "V+=s", "V=s", "V=", "unset V", "unset -n V", "unset 'V[0]'",
+		"declare -a V", "declare -A V", "declare -i V", "declare -n V", "declare -r V", "declare -x V", "declare +n V", "declare -p V",
+		"declare -a V=(1 2)", "declare -A V=([k]=1)", "declare -n V=V", "declare -n V=b", "declare V+=(z)", "export V", "export V=1", "readonly V",
+		"local V", "f2() { local -n V=V; V+=(1); }; f2", "f2() { local V=1; local -n w=V; w+=(2); echo ${w[@]}; }; f2",
+		"read V <<<'p q'", "read -a V <<<'p q r'", "read -r V w <<<'p q'", "mapfile -t V <<<$'l1\\nl2'", "readarray V <file", "printf -v V %s x",
+		"getopts ab V -a", "getopts ab o -a; echo $OPTIND", "for V in 1 2; do :; done", "for ((V=0; V<2; V++)); do :; done", "select V in x; do break; done <<<1",
+		"echo \"${!V}\"", "echo \"${!V[@]}\"", "echo \"${V[@]}\" \"${#V[@]}\" \"${V[0]}\" \"$V\"", "[[ -v V ]]; echo $?", "[[ -R V ]]; echo $?", "test -v V; echo $?",
+		"echo \"${V:-d}\" \"${V:=d}\" \"${V:+s}\"", "echo ${V@a} ${V@A} ${V@Q}", "(( V++ )); echo $?", "(( V += 2 )); let V=1", "echo $(( V + 1 )) $(( V[0] ))",
+		": ${V[2]:=d}", "V=1 true", "V=1 eval 'echo $V'", "V+=(1) true", "echo \"${V[@]:1}\" \"${V/x/y}\" \"${V^^}\"", "( V+=(s); declare -p V )", "V+=(q) | true", "{ V+=(q); } & wait",
+		"x=$(V+=(1); echo \"${V[@]}\")", "eval 'V+=(e)'", "trap 'V+=(t)' EXIT", "alias V=echo", "type V", "command -v V", "set -u; echo \"$V\"", "set -a; V=1", "shopt -s nullglob; V=(*)",
+		"declare -n w=V; w+=(1); echo ${!w}", "declare -n w=V; unset w; declare -p V", "typeset -n V2=V; V2+=(1)", "nameref V3=V; V3[0]=1",
+	}
+	n := 3 + r.Intn(6)
+	for k := 0; k < n; k++ {
+		t := v
+		if r.Chance(30) {
+			t = r.Pick([]string{"a", "b", "c", "t", "p", "q"})
+		}
+		sb.WriteString(strings.ReplaceAll(r.Pick(forms), "V", t) + "\n")
+	}
+	return sb.String()
+}
+
 func c28BuiltinProgram(r *Rand) (script string, tags []string) {
 	name := r.Pick(c28Builtins)
 	if r.Chance(12) {
@@ -1043,12 +1108,12 @@ func c28Search(c *Ctx, base string, corpus []string) {
 			items = append(items, c28Item{req: l, witness: l, key: "corpus\x00" + l, tags: []string{"corpus-search"}, known: true})
 		}
 	}
-	nVec, nProg, nOpts, nArr, nArith := c.N/2, c.N*5/6, c.N/10, c.N/3, c.N/5
+	nVec, nProg, nOpts, nArr, nArith, nRef := c.N/2, c.N*3/4, c.N/10, c.N/4, c.N/5, c.N/5
 	if c.Thorough() {
 		nProg = c.N * 4
 	}
 	if c.N == 0 {
-		nVec, nProg, nOpts, nArr, nArith = 0, 0, 0, 0, 0
+		nVec, nProg, nOpts, nArr, nArith, nRef = 0, 0, 0, 0, 0, 0
 	}
 	langs := []string{"bash", "bash", "bash", "posix", "mksh", "zsh", "bats"}
 	stdins := []string{"n", "s", "s", "e"}
@@ -1059,6 +1124,9 @@ func c28Search(c *Ctx, base string, corpus []string) {
 	}
 	for i := 0; i < nArr; i++ {
 		items = append(items, c28ProgItem("bash", r.Pick(stdins), c28ArraySeq(r), nil, "search:array-sequence"))
+	}
+	for i := 0; i < nRef; i++ {
+		items = append(items, c28ProgItem("bash", r.Pick(stdins), c28NamerefSeq(r), nil, "search:nameref-sequence"))
 	}
 	for i := 0; i < nArith; i++ {
 		// ordinal offset by shard so that the shards of a thorough run do not all start at op 0
@@ -1136,7 +1204,7 @@ func c28Search(c *Ctx, base string, corpus []string) {
 			slow = append(slow, res.kind+": "+c28Describe(it.req))
 		}
 		if res.kind == "invariant" {
-			c.Fail(it.witness, "after Runner.Run the array representation invariant is broken (latent index-out-of-range panic in the next keyed access): "+res.msg+" — input: "+c28Describe(it.req))
+			c.Fail(it.witness, "after Runner.Run a representation invariant that keeps a panic site unreachable is broken (latent panic in a later access): "+res.msg+" — input: "+c28Describe(it.req))
 		}
 		if res.kind == "hang" && res.msg != "" {
 			c.Fail(it.witness, "worker problem: "+res.msg)
